@@ -211,7 +211,7 @@ class Ctx:
             local = z3.Or(*inner) if len(inner) > 1 else inner[0]
             chosen = list(requires) + [reach] + ufacts
             for cand in (list(requires) + ufacts, list(requires) + [local] + ufacts):
-                r0 = solve.prove(cand, g, timeout_ms=3000, use_cvc5=False)
+                r0 = solve.prove(cand, g, timeout_ms=3000, use_cvc5=False, rlimit=3000000, quick=True)
                 if r0["verdict"] == solve.Verdict.PROVED:
                     chosen = cand
                     break
